@@ -196,7 +196,9 @@ PROPS["C14"] = {
     "level_note": "Same impl coverage and assumptions as C13. Memory = capacity argument of with_capacity; time = iteration counts.",
     "components": [V("streamable_core"), V("streamable_derived_0"), V("streamable_derived_1"), V("streamable_derived_2"),
                    V("streamable_handwritten"), N("native_pos_v2_hash", "pos_v2_hash"),
-                   N("native_roundtrip_ground", "roundtrip_ground", thorough_task="roundtrip_ground:thorough")],
+                   N("native_roundtrip_ground", "roundtrip_ground", thorough_task="roundtrip_ground:thorough"),
+                   # memory: the largest single allocation request of every decoder on hostile length prefixes (counting allocator)
+                   N("native_alloc_ground", "alloc_ground")],
     "assumptions": _STREAM_ASSUME,
     "not_covered": [
         "[T;N], BLS element decoders; clvmr serialized_length_from_bytes (uninterpreted: Program::parse is proved to consume exactly the length it reports, after checking it against the buffer)",
